@@ -56,8 +56,9 @@ FirstTransport(items) ==
                [] OTHER -> <<"grpc", "rest">>
 
 -----------------------------------------------------------------------------
-VARIABLES req, stage, opts, package, naming, protos, todo, emitted, features
-vars == <<req, stage, opts, package, naming, protos, todo, emitted, features>>
+VARIABLES req, stage, opts, package, naming, protos, todo, emitted, features,
+          subs        \* target files that live in a proto sub-package: [mod, sub (path segments below the root)]
+vars == <<req, stage, opts, package, naming, protos, todo, emitted, features, subs>>
 
 None == [none |-> TRUE]
 
@@ -68,6 +69,7 @@ Twin1 == [proto |-> "lib.admin", mod |-> "lib_admin"]
 Twin2 == [proto |-> "lib_admin", mod |-> "lib_admin"]
 FilesChoices ==
   CASE Scope = "twins"   -> {<<Twin1, Twin2>>, <<Twin2, Twin1>>}
+    [] Scope = "subpkg"  -> {<<[proto |-> "lib", mod |-> "lib"]>>, <<[proto |-> "lib", mod |-> "lib"], [proto |-> "lib.admin", mod |-> "lib_admin"]>>}
     [] Scope = "ads"     -> {<<[proto |-> "lib", mod |-> "lib"]>>, <<[proto |-> "lib", mod |-> "lib"], [proto |-> "lib.admin", mod |-> "lib_admin"]>>}
     [] Scope = "shapes"  -> Singles(FileTable \ {Twin2}) \cup {p \in Pairs(FileTable \ {Twin2}) : p[1].proto = "lib"}
     [] Scope = "options" -> {<<[proto |-> "lib", mod |-> "lib"]>>}
@@ -79,13 +81,16 @@ SvcChoices ==
                             \cup {<<[camel |-> "Library", snake |-> "library"], [camel |-> "BookAdmin", snake |-> "book_admin"]>>,
                                   <<[camel |-> "BookAdmin", snake |-> "book_admin"], [camel |-> "Library", snake |-> "library"]>>}
 KindChoices ==
-  CASE Scope = "ads"     -> {<<"unary">>, <<"unary", "paged">>}
+  CASE Scope = "subpkg"  -> {<<"unary">>, <<"paged", "lro">>}
+    [] Scope = "ads"     -> {<<"unary">>, <<"unary", "paged">>}
     [] Scope = "shapes"  -> Singles(MethodKinds) \cup {<<"unary", k>> : k \in MethodKinds \ {"unary"}}
     [] Scope = "options" -> {<<"unary", "paged">>}
     [] OTHER             -> {<<"unary">>, <<"paged", "lro">>}
 PkgChoices ==
   CASE Scope = "shapes"  -> NsChoices \X {"lib"} \X VerChoices
     [] Scope = "ads"     -> {<<>>, <<"acme">>, <<"big", "corp">>} \X {"lib"} \X {"", "v1"}
+    \* (an unversioned package admits no sub-packages: "All protos must have the same proto package up to and including the version")
+    [] Scope = "subpkg"  -> {<<>>, <<"acme">>, <<"big", "corp">>} \X {"lib"} \X {"v1", "v1beta1"}
     [] Scope = "options" -> {<<<<"acme">>, "lib", "v1">>}
     [] OTHER             -> {<<<<"acme">>, "lib", "v1">>, <<<<>>, "lib", "">>}
 AdsItems == <<"python-gapic-templates=ads-templates", "old-naming">>
@@ -103,7 +108,10 @@ OptChoices ==
 ExtraChoices ==
   CASE Scope = "shapes"  -> {"none", "kw", "internal"}
     [] Scope \in {"options", "twins", "ads"} -> {"none"}
+    [] Scope = "subpkg"  -> {"subpkg"}
     [] OTHER             -> {"none", "kw", "internal", "reserved", "xreq", "sibdep"}
+\* "subpkg": one more TARGET file in the proto sub-package <package>.admin (admin/adm.proto, message AdminThing, used by a root
+\* message, hence listed BEFORE the root files in the request): its types module lives under <root>/admin/types/
 \* "xreq" adds an RPC (Xcheck) whose request message lives in the dependency package (so the dependency file is there);
 \* "sibdep": the dependency file's package extends the LAST SEGMENT of the target package (acme.lib.v1beta1 next to
 \* acme.lib.v1, acme.libs next to acme.lib) - it is a different package, not a sub-package, and stays a dependency
@@ -112,7 +120,7 @@ Requests == { r \in [ pkg : PkgChoices, files : FilesChoices, svcs : SvcChoices,
 
 Init == /\ req \in Requests
         /\ stage = "start" /\ opts = None /\ package = <<>> /\ naming = None /\ protos = <<>>
-        /\ todo = <<>> /\ emitted = <<>> /\ features = {}
+        /\ todo = <<>> /\ emitted = <<>> /\ features = {} /\ subs = <<>>
 
 -----------------------------------------------------------------------------
 (* ParseOptions: permissive; unknown keys are dropped.  Named deviations   *)
@@ -131,7 +139,7 @@ ParseOptions ==
                nsOv      |-> IF Has(req.items, "python-gapic-namespace=Big.Corp") THEN <<"big", "corp">> ELSE <<>>,
                hasNsOv   |-> Has(req.items, "python-gapic-namespace=Big.Corp") ]
   /\ stage' = "opts"
-  /\ UNCHANGED <<req, package, naming, protos, todo, emitted, features>>
+  /\ UNCHANGED <<req, package, naming, protos, todo, emitted, features, subs>>
 
 PkgSegs(r) == r.pkg[1] \o <<r.pkg[2]>> \o (IF r.pkg[3] = "" THEN <<>> ELSE <<r.pkg[3]>>)
 
@@ -139,7 +147,7 @@ SelectPackage ==
   /\ stage = "opts"
   /\ package' = PkgSegs(req)            \* common prefix of the packages of the files to generate
   /\ stage' = "pkg"
-  /\ UNCHANGED <<req, opts, naming, protos, todo, emitted, features>>
+  /\ UNCHANGED <<req, opts, naming, protos, todo, emitted, features, subs>>
 
 BuildNaming ==
   /\ stage = "pkg"
@@ -151,7 +159,7 @@ BuildNaming ==
      IN naming' = [ ns |-> ns, name |-> nm, version |-> ver,
                     versioned |-> IF ver = "" THEN nm ELSE nm \o (IF opts.old THEN "." ELSE "_") \o ver ]
   /\ stage' = "named"
-  /\ UNCHANGED <<req, opts, package, protos, todo, emitted, features>>
+  /\ UNCHANGED <<req, opts, package, protos, todo, emitted, features, subs>>
 
 LoadProtos ==
   /\ stage = "named"
@@ -160,6 +168,7 @@ LoadProtos ==
                   [mod |-> IF \E j \in 1..(i-1) : req.files[j].mod = req.files[i].mod THEN req.files[i].mod \o "_" ELSE req.files[i].mod,
                    target |-> TRUE]]
                  \o (IF req.dep THEN <<[mod |-> "dep", target |-> FALSE]>> ELSE <<>>)
+  /\ subs' = IF req.extra = "subpkg" THEN <<[mod |-> "adm", sub |-> <<"admin">>]>> ELSE <<>>
   /\ todo' = <<"unversioned", "root", "metadata", "services_init", "services", "types_init", "types", "samples", "other">>
   /\ stage' = "render"
   /\ UNCHANGED <<req, opts, package, naming, emitted, features>>
@@ -189,12 +198,14 @@ FamilyFiles(f) ==
   CASE f = "unversioned"   -> IF opts.ads THEN {URoot \o <<"py.typed">>} \cup (IF naming.version = "" THEN {} ELSE {URoot \o <<"__init__.py">>})
                               ELSE IF naming.version = "" THEN {} ELSE {URoot \o <<"__init__.py">>, URoot \o <<"gapic_version.py">>, URoot \o <<"py.typed">>}
     [] f = "root"          -> {Root \o <<"__init__.py">>, Root \o <<"gapic_version.py">>} \cup (IF opts.ads THEN {} ELSE {Root \o <<"py.typed">>})
+                              \cup {Root \o subs[i].sub \o <<"__init__.py">> : i \in 1..Len(subs)}
     \* the Ads gapic_metadata.json template is commented out: it renders empty and empty files are not emitted
     [] f = "metadata"      -> IF opts.metadata /\ ~opts.ads THEN {Root \o <<"gapic_metadata.json">>} ELSE {}
     [] f = "services_init" -> {Root \o <<"services", "__init__.py">>}
     [] f = "services"      -> UNION {ServiceFiles(s) : s \in Services}
-    [] f = "types_init"    -> {Root \o <<"types", "__init__.py">>}
+    [] f = "types_init"    -> {Root \o <<"types", "__init__.py">>} \cup {Root \o subs[i].sub \o <<"types", "__init__.py">> : i \in 1..Len(subs)}
     [] f = "types"         -> {Root \o <<"types", protos[i].mod \o ".py">> : i \in {j \in 1..Len(protos) : protos[j].target}}
+                              \cup {Root \o subs[i].sub \o <<"types", subs[i].mod \o ".py">> : i \in 1..Len(subs)}
     [] f = "samples"       -> IF opts.snippets /\ Services # {}
                               THEN {<<"samples", "generated_samples", "snippet_metadata.json">>} ELSE {}
     [] OTHER               -> {<<"setup.py">>, <<"noxfile.py">>}
@@ -204,13 +215,13 @@ Render ==
   /\ LET new == FamilyFiles(Head(todo))
      IN emitted' = emitted \o SetToSeq(new)
   /\ todo' = Tail(todo)
-  /\ UNCHANGED <<req, stage, opts, package, naming, protos, features>>
+  /\ UNCHANGED <<req, stage, opts, package, naming, protos, features, subs>>
 
 Respond ==
   /\ stage = "render" /\ todo = <<>>
   /\ features' = {"PROTO3_OPTIONAL"}
   /\ stage' = "done"
-  /\ UNCHANGED <<req, opts, package, naming, protos, todo, emitted>>
+  /\ UNCHANGED <<req, opts, package, naming, protos, todo, emitted, subs>>
 
 Next == ParseOptions \/ SelectPackage \/ BuildNaming \/ LoadProtos \/ Render \/ Respond
 Spec == Init /\ [][Next]_vars
@@ -220,6 +231,7 @@ Spec == Init /\ [][Next]_vars
 Under(prefix, n) == Len(n) >= Len(prefix) /\ SubSeq(n, 1, Len(prefix)) = prefix
 Emitted == Range(emitted)
 TypesModules == {n \in Emitted : Under(Root \o <<"types">>, n) /\ Len(n) = Len(Root) + 2 /\ Last(n) # "__init__.py"}
+                \cup {n \in Emitted : \E i \in 1..Len(subs) : n = Root \o subs[i].sub \o <<"types", subs[i].mod \o ".py">>}
 ServicePkgs == {SubSeq(n, 1, Len(Root) + 2) : n \in {m \in Emitted : Under(Root \o <<"services">>, m) /\ Len(m) > Len(Root) + 2}}
 TransportFiles == {n \in Emitted : Len(n) = Len(Root) + 4 /\ Under(Root \o <<"services">>, n) /\ n[Len(Root) + 3] = "transports"
                                    /\ Last(n) \in {"grpc.py", "grpc_asyncio.py", "rest.py", "rest_base.py", "rest_asyncio.py"}}
@@ -243,7 +255,7 @@ Normalised(n) == Len(n) >= 1 /\ \A i \in 1..Len(n) : n[i] \notin {"", ".", ".."}
 Inv_Unique == Len(emitted) = Cardinality(Emitted)
 Inv_Normalised == \A n \in Emitted : Normalised(n)
 Inv_InitPy == Done => \A n \in Emitted : (Under(Root, n) /\ IsPy(n)) => \A d \in DirsOf(n) : d \o <<"__init__.py">> \in Emitted
-Inv_TypesExact == Done => Cardinality(TypesModules) = Len(req.files)
+Inv_TypesExact == Done => Cardinality(TypesModules) = Len(req.files) + Len(subs)
 Inv_NoDepOutput == Done => \A n \in Emitted : Last(n) # "dep.py"
 Inv_ServicesExact == Done => Cardinality(ServicePkgs) = Len(req.svcs)
 Inv_Transports == Done => \A n \in TransportFiles :
